@@ -296,6 +296,66 @@ int main(int argc, char** argv)
 		}
 		T.emit(ev);
 	}
+	// ---------------------------------------------------------------- one Minimization object used for many calls
+	// Every call on a used object must return, and return what a fresh object returns for the same request (bit for bit).
+	{
+		int nseq = quick ? 3 : 24;
+		for(int sq = 0; sq < nseq; sq++)
+		{
+			uint64_t sseed = 7770 + sq;
+			ChildResult r  = run_child([&]() {
+				Rng h(sseed);
+				Minimization used(1e-8);
+				long ndiff = 0, nbadstate = 0, total = 0;
+				int ncalls = 60;
+				for(int cidx = 0; cidx < ncalls; cidx++)
+				{
+					int dim = (int)h.range(1, 4), overload = (int)h.range(0, 2);
+					std::vector<double> c(dim), lam(dim), start(dim), deltas(dim);
+					for(int k = 0; k < dim; k++)
+					{
+						c[k]	  = h.uni(-10, 10);
+						lam[k]	  = h.logu(0.5, 20);
+						start[k]  = c[k] + h.uni(-4, 4);
+						deltas[k] = h.uni(0.3, 2.0) * (h.coin() ? 1 : -1);
+					}
+					double f0 = h.uni(0.5, 3);
+					auto f	  = [&](std::vector<double> x) {
+						   double v = f0;
+						   for(int k = 0; k < dim; k++)
+							   v += 0.5 * lam[k] * (x[k] - c[k]) * (x[k] - c[k]);
+						   return v;
+					};
+					std::vector<std::vector<double>> pp(dim + 1, start);
+					for(int k = 0; k < dim; k++)
+						pp[k + 1][k] += deltas[k];
+					auto call = [&](Minimization& M) { return overload == 0 ? M.minimize(start, deltas[0], f) : (overload == 1 ? M.minimize(start, deltas, f) : M.minimize(pp, f)); };
+					Minimization fresh(1e-8);
+					std::vector<double> a = call(fresh), b = call(used);
+					total += fresh.nfunc;
+					bool same = a.size() == b.size() && bits(fresh.fmin) == bits(used.fmin);
+					for(size_t k = 0; same && k < a.size(); k++)
+						same = bits(a[k]) == bits(b[k]);
+					if(!same)
+						ndiff++;
+					if(!(bits(used.fmin) == bits(f(b)) && used.current_simplex[0] == b && (int)used.y.size() == dim + 1))
+						nbadstate++;
+				}
+				json o = {{"ncalls", ncalls}, {"ndiff", ndiff}, {"nbadstate", nbadstate}, {"evals", total}};
+				return o.dump();
+			}, 120);
+			json ev = {{"e", "MinReuse"}, {"seq", sq}, {"returned", r.returned}, {"how", outcome(r)}, {"ncalls", 0}, {"ndiff", 0}, {"nbadstate", 0}, {"evals", 0}};
+			if(r.returned)
+			{
+				json o		   = json::parse(r.result);
+				ev["ncalls"]   = o["ncalls"];
+				ev["ndiff"]	   = o["ndiff"];
+				ev["nbadstate"] = o["nbadstate"];
+				ev["evals"]	   = o["evals"];
+			}
+			T.emit(ev);
+		}
+	}
 	T.flush();
 	finished();
 	return 0;
